@@ -54,8 +54,10 @@ void splinetable<Alloc>::permuteDimensions(const std::vector<size_t>& permutatio
 		t_knots[i] = knots[j];
 		if(periods)
 			t_periods[i] = periods[j];
-		t_extents[i][0] = extents[j][0];
-		t_extents[i][1] = extents[j][1];
+		if(extents){
+			t_extents[i][0] = extents[j][0];
+			t_extents[i][1] = extents[j][1];
+		}
 	}
 	
 	// Compute new strides
@@ -82,9 +84,11 @@ void splinetable<Alloc>::permuteDimensions(const std::vector<size_t>& permutatio
 	std::copy(t_knots.get(),t_knots.get()+ndim,knots);
 	if(periods)
 		std::copy(t_periods.get(),t_periods.get()+ndim,periods);
-	for(uint32_t i=0; i<ndim; i++){
-		extents[i][0]=t_extents[i][0];
-		extents[i][1]=t_extents[i][1];
+	if(extents){
+		for(uint32_t i=0; i<ndim; i++){
+			extents[i][0]=t_extents[i][0];
+			extents[i][1]=t_extents[i][1];
+		}
 	}
 	std::copy(t_coefficients.get(),t_coefficients.get()+ncoeffs,coefficients);
 }
